@@ -313,6 +313,17 @@ def make_replay(w, prop, res, ob, tier):
         s.add(z3.Not(target.goal))
         params = target.extra.get("params")
         verdict = s.check()
+        if verdict == z3.unknown and params:
+            # quantified axioms: `unknown` (model construction incomplete) is common and varies with load; retry with other
+            # seeds, then with every parameter container bounded, before giving up on an input
+            for seed_ in (1, 2, 3):
+                s.set("random_seed", seed_)
+                verdict = s.check()
+                if verdict == z3.sat:
+                    break
+            if verdict != z3.sat:
+                s.add(*[n <= 3 for n in _lengths(params)])
+                verdict = s.check()
         if verdict == z3.sat and params:
             # prefer a small counterexample: bound the length of every sequence / mapping among the parameters
             lens = _lengths(params)
